@@ -2,10 +2,10 @@
 package launchh
 
 import (
-	"sort"
 	"context"
 	"fmt"
 	"net"
+	"sort"
 	"strconv"
 	"strings"
 	"time"
@@ -91,9 +91,9 @@ type c36Tables struct {
 		ipnet *net.IPNet
 		m     *c36Map
 	}
-	nodes    map[string]*c36Map
-	suffrage *c36Map
-	defmap   *c36Map
+	nodes     map[string]*c36Map
+	suffrage  *c36Map
+	defmap    *c36Map
 	consensus map[string]bool
 }
 
@@ -136,12 +136,12 @@ func (t *c36Tables) expected(addr *net.UDPAddr, handler, clientID string, bound 
 
 type c36Req struct {
 	idle      time.Duration // how long the address had not been used before this request (-1: first use)
-	uncertain bool // the binding changed under the request, or a request of another rule shared the limiter
-	at      time.Duration
-	allowed bool
-	rule    string
-	burst   int
-	rate    float64 // per second; <0: no limit
+	uncertain bool          // the binding changed under the request, or a request of another rule shared the limiter
+	at        time.Duration
+	allowed   bool
+	rule      string
+	burst     int
+	rate      float64 // per second; <0: no limit
 }
 
 func c36Run(r *simkit.Run) {
@@ -552,11 +552,11 @@ func keys(m map[string]*c36Map) []string {
 
 func init() {
 	simkit.Register(&simkit.Harness{
-		ID:   "C36",
-		Run:  c36Run,
-		Real: []string{"launch.RateLimitHandler (Func, AddNode, shrink daemon)", "launch.RateLimiterRules and every rule set", "launch.RateLimiter over golang.org/x/time/rate", "addrPool"},
-		Stub: []string{"consensus-node lookup (harness function)", "verif-tagged accessor reading the address pool (has address, bound node)"},
-		Rule: "each run draws 1-4 phases; in each an admin changes rule tables (client-id, nets, node, suffrage, default map; rule bursts unique per run so the result identifies the rule), binds addresses to nodes and changes the consensus nodes, then 1-3 concurrent clients issue requests from 4 addresses x 2 handlers x 3 client ids with sleeps from 1 us to 3 s on the fake clock, while the shrink daemon runs (expiry 2 s/33 s, optional max-addrs pressure). Every result is compared with the statement's precedence evaluated on the tables strictly before the request; afterwards every window of allowed requests per (address, handler) under an unchanged rule must fit burst + rate x window. distinct = event-log hash",
+		ID:          "C36",
+		Run:         c36Run,
+		Real:        []string{"launch.RateLimitHandler (Func, AddNode, shrink daemon)", "launch.RateLimiterRules and every rule set", "launch.RateLimiter over golang.org/x/time/rate", "addrPool"},
+		Stub:        []string{"consensus-node lookup (harness function)", "verif-tagged accessor reading the address pool (has address, bound node)"},
+		Rule:        "each run draws 1-4 phases; in each an admin changes rule tables (client-id, nets, node, suffrage, default map; rule bursts unique per run so the result identifies the rule), binds addresses to nodes and changes the consensus nodes, then 1-3 concurrent clients issue requests from 4 addresses x 2 handlers x 3 client ids with sleeps from 1 us to 3 s on the fake clock, while the shrink daemon runs (expiry 2 s/33 s, optional max-addrs pressure). Every result is compared with the statement's precedence evaluated on the tables strictly before the request; afterwards every window of allowed requests per (address, handler) under an unchanged rule must fit burst + rate x window. distinct = event-log hash",
 		Assumptions: []string{"causally ordered actions are at least 1 us apart on the fake clock (the code compares nanosecond stamps)", "every net rule map has a default, so 'first matching network' is unambiguous", "an address idle for ExpireAddr legitimately starts with a fresh limiter"},
 	})
 }
